@@ -116,6 +116,11 @@ def run(tier, seed, t0):
         })
         stats.update(mstats)
 
+    if exe is not None:
+        dst, dfail = deep_chain(exe, 'validate', PID)
+        stats['deep_chain'] = dst
+        failures += dfail
+
     def search():
         found = []
         if exe is None:
